@@ -1138,7 +1138,7 @@ sc_notify_nary_get_widths (sc_notify_t * notify, int *ntop, int *nint,
   if (nint)
     *nint = notify->data.nary.nint;
   if (nbot)
-    *nint = notify->data.nary.nbot;
+    *nbot = notify->data.nary.nbot;
 }
 
 void
